@@ -10,9 +10,15 @@ pub mod known;
 pub mod stubs;
 pub mod ref_annexb;
 pub mod bx;
+pub mod fin;
+pub mod apistep;
 
+#[cfg(all(kani, feature = "c01"))]
+pub mod p_c01;
 #[cfg(all(kani, feature = "c03"))]
 pub mod p_c03;
+#[cfg(all(kani, any(feature = "c04", feature = "c05")))]
+pub mod p_c04;
 #[cfg(all(kani, feature = "c12"))]
 pub mod p_c12;
 #[cfg(all(kani, feature = "c14"))]
